@@ -20,11 +20,7 @@ P = ['C03', 'C06', 'C07', 'C08', 'C09', 'C13']
 
 # functions of syntax_to_semantics.rs that are NOT verified (closures / iterator adapters capturing
 # `&mut Context`, generic SourceTrait plumbing): declared with havoc contracts
-S2S_UNVERIFIED = {
-    'stmt_to_asg_stmt', 'expr_stmt_to_asg_stmt', 'block_expr_to_asg_stmt_list', 'block_expr_to_asg_type',
-    'block_or_stmt_to_asg_type', 'qubit_list_to_asg_texpr', 'expression_list_to_asg_texpr', 'indexed_identifier_to_asg_type',
-    'bind_parameter_list', 'bind_typed_parameter_list',
-}
+S2S_UNVERIFIED = set()
 S2S_SKIP = {'syntax_to_semantic', 'parse_source_string_with_path_search', 'parse_source_file_with_search', 'parse_source_string', 'parse_source_file',
             'analyze_source', 'ParseResult'}
 
@@ -64,6 +60,36 @@ ACC_SOME = {
     ('ParenExpr', 'expr'): (AP, 'empty parentheses in expression position are a syntax error'),
     ('AssignmentStmt', 'rhs'): (AP, 'a missing right-hand side is a syntax error'),
     ('AssignmentStmt', 'indexed_identifier'): (AP, 'the target of an ASSIGNMENT_STMT is IDENTIFIER or INDEXED_IDENTIFIER'),
+    ('IndexedIdentifier', 'identifier'): (AP, 'an INDEXED_IDENTIFIER precedes its identifier'),
+    ('TypedParam', 'name'): (AP, 'a typed parameter without a name is a syntax error'),
+    ('PowModifier', 'paren_expr'): (AP, '`pow` without a parenthesised exponent is a syntax error'),
+    ('ForStmt', 'loop_var'): (AP, '`for` without a loop variable is a syntax error'),
+    ('ForStmt', 'scalar_type'): (AP, '`for` without the type of the loop variable is a syntax error'),
+    ('ForStmt', 'for_iterable'): (AP, 'for_stmt always completes a FOR_ITERABLE'),
+    ('CaseExpr', 'expression_list'): (AP, '`case` without values is a syntax error'),
+    ('CaseExpr', 'block_expr'): (AP, '`case` without a block is a syntax error'),
+    ('QuantumDeclarationStatement', 'qubit_type'): (AP, 'a quantum declaration starts with `qubit`'),
+    ('Gate', 'name'): (AP, '`gate` without a name is a syntax error'),
+    ('Gate', 'qubit_params'): (AP, 'gate_definition always completes the PARAM_LIST of qubits (possibly empty)'),
+    ('Gate', 'body'): (AP, '`gate` without a body is a syntax error'),
+    ('Def', 'name'): (AP, '`def` without a name is a syntax error'),
+    ('Def', 'body'): (AP, '`def` without a body is a syntax error'),
+    ('Def', 'typed_param_list'): (AP, '`def` without a parameter list is a syntax error'),
+    ('DelayStmt', 'qubit_list'): (AP, 'delay_stmt always completes a QUBIT_LIST (possibly empty)'),
+    ('DelayStmt', 'designator'): (AP, '`delay` without a designator is a syntax error'),
+    ('Reset', 'gate_operand'): (AP, '`reset` without an operand is a syntax error'),
+    ('AliasDeclarationStatement', 'name'): (AP, '`let` without a name is a syntax error'),
+    ('AliasDeclarationStatement', 'expr'): (AP, '`let` without a right-hand side is a syntax error'),
+    ('SwitchCaseStmt', 'control'): (AP, '`switch` without a control expression is a syntax error'),
+    ('IfStmt', 'condition'): (AP, '`if` without a condition is a syntax error'),
+    ('WhileStmt', 'condition'): (AP, '`while` without a condition is a syntax error'),
+}
+# hand-written accessors of node_ext.rs that panic ("Error in oq3_syntax") when the node has neither a
+# block nor a statement child: the guard is a precondition, each call site carries the known finding
+ACC_REQUIRES = {
+    ('IfStmt', 'true_body_block_or_stmt'): 'KF:C03-empty-stmt-body',
+    ('WhileStmt', 'block_or_stmt'): 'KF:C03-empty-stmt-body',
+    ('ForStmt', 'block_or_stmt'): 'KF:C03-empty-stmt-body',
 }
 ACC_CUSTOM = {
     ('RangeExpr', 'start_step_stop'): (AP, 'r.0 is Some && r.2 is Some', 'a range without start or stop is a syntax error'),
@@ -89,11 +115,22 @@ PANIC_GUARDS = [
     ('expr_to_asg_texpr', 'panic!("BoxExpr not supported', 'KF', 'C03-box-expr'),
     ('expr_to_asg_texpr', 'panic!("You have found a bug in oq3_parser.")', AP, 'gate calls / dim expressions are statements, never operands'),
     ('io_declaration_statement_to_asg_stmt', 'panic!("Array types are not supported', 'KF', 'C03-io-array'),
+    ('bind_typed_parameter_list', 'panic!("You have found a bug in oq3_parser")', AP, 'a TYPED_PARAM has a type (else syntax error)'),
+    ('expr_stmt_to_asg_stmt', 'panic!("expr::ExprStmt is None', AP, 'an EXPR_STMT contains an expression (an empty statement `;` yields no EXPR_STMT)'),
+    ('stmt_to_asg_stmt', 'unreachable!() // probably is reachable', AP, 'a FOR_ITERABLE contains a set expression, a range or an expression'),
 ]
 GHOST_ASSUMES = [
     ('designator_to_asg', 'let const_value = context.get_const_value(sym.unwrap());', 'assume(sym is Ok); // KF:C03-designator-undeclared'),
     ('designator_to_asg', 'let width = match u32::try_from(const_value.unwrap()) {', 'assume(const_value is Some); // KF:C03-designator-no-value'),
     ('declare_classical_helper', 'context.insert_const_value(symbol_id.clone().unwrap(), initializer.clone());', 'assume(symbol_id is Ok); // KF:C03-redeclare-const'),
+    ('expr_stmt_to_asg_stmt', 'let gphase = mod_gate_call.g_phase_call_expr().unwrap();', 'assume(mod_gate_call.sp_g_phase_call_expr() is Some); /* AP:a MODIFIED_GATE_CALL_EXPR wraps a gate call or a gphase call */'),
+    ('expr_stmt_to_asg_stmt', 'let arg = expr_to_asg_texpr(gphase.arg(), context).unwrap();\n                Some(asg::Stmt::ModifiedGPhaseCall', 'assume(gphase.sp_arg() is Some); // KF:C03-gphase-no-arg'),
+    ('expr_stmt_to_asg_stmt', 'let arg = expr_to_asg_texpr(gphase.arg(), context).unwrap();\n            Some(asg::Stmt::GPhaseCall', 'assume(gphase.sp_arg() is Some); // KF:C03-gphase-no-arg'),
+    ('stmt_to_asg_stmt', 'let hw_qubit = q_decl.hardware_qubit().unwrap();', 'assume(q_decl.sp_hardware_qubit() is Some); /* AP:a quantum declaration names a variable or a hardware qubit */'),
+    ('stmt_to_asg_stmt', 'let duration =\n                expr_to_asg_texpr(delay_stmt.designator().unwrap().expr(), context).unwrap();', 'assume(delay_stmt.sp_designator()->Some_0.sp_expr() is Some); /* AP:an empty designator `[]` is a syntax error */'),
+    ('stmt_to_asg_stmt', 'with_scope!(context,  ScopeType::Local,\n                        let then_branch', 'assume(if_stmt.sp_true_body_block_or_stmt_ok()); // KF:C03-empty-stmt-body'),
+    ('stmt_to_asg_stmt', 'with_scope!(context,  ScopeType::Local,\n                        let loop_body = block_or_stmt_to_asg_type(while_stmt', 'assume(while_stmt.sp_block_or_stmt_ok()); // KF:C03-empty-stmt-body'),
+    ('stmt_to_asg_stmt', 'with_scope!(context,  ScopeType::Local,\n                        let loop_var_symbol_id', 'assume(for_stmt.sp_block_or_stmt_ok()); // KF:C03-empty-stmt-body'),
 ]
 
 
@@ -187,12 +224,15 @@ def panic_rewrites(fn, src_text):
                 break
             e = _balanced_call(src_text, i)
             if mask.code[i]:          # occurrences inside comments do not count
-                found.append(src_text[i:e])
+                call_ = src_text[i:e]
+                # a guard prefix that is longer than the macro call pins ONE site among identical calls
+                found.append(call_ if len(prefix) <= len(call_) else prefix)
             pos = e
         tag = ('KF:%s' % what) if kind == 'KF' else ('AP:%s' % what)
         for call in sorted(set(found)):
             n = src_text.count(call)
-            out.append(('GHOST-assume-unreachable', call, '{ assume(false); /* %s */ %s }' % (tag, call), n))
+            mcall = call[:_balanced_call(call, 0)]
+            out.append(('GHOST-assume-unreachable', call, '{ assume(false); /* %s */ %s }%s' % (tag, mcall, call[len(mcall):]), n))
         if len(found) != cnt:
             from vlib.unit import Undecided
             raise Undecided('panic guard %r in %s: expected %d site(s), found %d' % (prefix, fn, cnt, len(found)))
@@ -212,7 +252,7 @@ def build():
         s.item(k, n)
     # ---- the opaque AST
     some = {k: ('%s:%s' % (v[0], v[1])) for k, v in ACC_SOME.items()}
-    ast_text, n_nodes, n_acc = genast.generate(some, {k: (v[1], '%s:%s' % (v[0], v[2])) for k, v in ACC_CUSTOM.items()})
+    ast_text, n_nodes, n_acc = genast.generate(some, {k: (v[1], '%s:%s' % (v[0], v[2])) for k, v in ACC_CUSTOM.items()}, ACC_REQUIRES)
     U.raw(open(__file__.replace('units/sema.py', 'contracts/sema.context2.rs')).read())
     U.raw('''pub mod synast {
 use vstd::prelude::*;
@@ -223,8 +263,22 @@ pub trait HasArgList {}
 pub trait HasTextNode {}
 #[verifier::external_body] pub struct SyntaxToken { _p: u8 }
 #[verifier::external_body] pub struct TokenText { _p: u8 }
+impl TokenText {
+    pub uninterp spec fn chars(&self) -> Seq<char>;
+    /// `impl AsRef<str> for TokenText` (token_text.rs): the text itself
+    #[verifier::external_body] pub fn as_ref(&self) -> (r: &str) ensures r@ == self.chars() { unimplemented!() }
+}
 #[verifier::external_body] pub struct CowStr { _p: u8 }
 #[verifier::external_body] #[verifier::reject_recursive_types(N)] pub struct AstChildren<N> { _p: std::marker::PhantomData<N> }
+impl<N> AstChildren<N> {
+    /// the children not yet yielded, in source order
+    pub uninterp spec fn rest(&self) -> Seq<N>;
+    /// assumed-dep (rowan): AstChildren is a finite iterator over the children of an immutable node
+    #[verifier::external_body] pub fn next(&mut self) -> (r: Option<N>)
+        ensures old(self).rest().len() == 0 ==> r is None && final(self).rest() == old(self).rest(),
+                old(self).rest().len() > 0 ==> r == Some(old(self).rest()[0]) && final(self).rest() == old(self).rest().skip(1),
+    { unimplemented!() }
+}
 ''')
     o = U.file(OPS)
     for n in ['RangeOp', 'UnaryOp', 'BinaryOp', 'LogicOp', 'CmpOp', 'Ordering', 'ArithOp']:
@@ -336,21 +390,34 @@ pub assume_specification<T: Clone, EE: Clone> [<Result<T, EE> as Clone>::clone] 
     z.item('macro_rules', 'not_impl')
     U.file(CTX).item('macro_rules', 'with_scope')
     zov = {}
-    for fn in S2S_UNVERIFIED:
-        zov[fn] = dict(trusted=True, note='closures / iterator adapters capturing `&mut Context`: not verified (havoc contract)')
-
-    for fn in ['qubit_list_to_asg_texpr', 'expression_list_to_asg_texpr', 'indexed_identifier_to_asg_type', 'block_expr_to_asg_stmt_list',
-               'block_expr_to_asg_type', 'block_or_stmt_to_asg_type', 'stmt_to_asg_stmt', 'expr_stmt_to_asg_stmt', 'bind_parameter_list', 'bind_typed_parameter_list']:
-        zov[fn]['spec'] = 'ensures grows(*old(context), *final(context)),   // (assumed: diagnostics and symbol-table events are only ever appended)'
+    NEWLY = ['qubit_list_to_asg_texpr', 'expression_list_to_asg_texpr', 'indexed_identifier_to_asg_type', 'block_expr_to_asg_stmt_list',
+             'block_expr_to_asg_type', 'block_or_stmt_to_asg_type', 'stmt_to_asg_stmt', 'expr_stmt_to_asg_stmt', 'bind_parameter_list', 'bind_typed_parameter_list']
+    for fn in NEWLY:
+        zov[fn] = dict(closures=True, spec='ensures grows(*old(context), *final(context)),', loop_ghost='broadcast use sema_lemmas;')
+    ITER = lambda it, extra='': 'invariant\n    scoped(*old(context), *context),%s\nensures %s.rest().len() == 0,\ndecreases %s.rest().len(),' % (extra, it, it)
+    NONGLOBAL = 'requires !old(context).global(),      // a nested `include` is diagnosed, never evaluated (the `unreachable!` of stmt_to_asg_stmt)\n'
+    zov['qubit_list_to_asg_texpr'].update(ret='r', props=['C06', 'C03', 'C13'], loops={1: ITER('oq3_it1', '\n    qubit_list is Some, oq3_v1@.len() + oq3_it1.rest().len() == qubit_list->Some_0.sp_gate_operands().len(),')},
+        spec='requires qubit_list is Some,    // the `unwrap` of the body\nensures grows(*old(context), *final(context)), r@.len() == qubit_list->Some_0.sp_gate_operands().len(),     //@C06:operands-keep-count')
+    zov['expression_list_to_asg_texpr'].update(ret='r', props=['C06', 'C03'], loops={1: ITER('oq3_it1', '\n    oq3_v1@.len() + oq3_it1.rest().len() == expression_list.sp_exprs().len(),')},
+        spec='ensures grows(*old(context), *final(context)), r@.len() == expression_list.sp_exprs().len(),     //@C06:arguments-keep-count')
+    zov['indexed_identifier_to_asg_type'].update(ret='r', props=['C06', 'C03', 'C07'], loops={1: ITER('oq3_it1', '\n    oq3_v1@.len() + oq3_it1.rest().len() == indexed_identifier.sp_index_operators().len(),')},
+        spec='ensures grows(*old(context), *final(context)), r.0.indexes@.len() == indexed_identifier.sp_index_operators().len(),     //@C06:indexes-keep-count')
+    zov['block_expr_to_asg_stmt_list'].update(ret='r', props=['C06', 'C03', 'C07'], loops={1: ITER('oq3_it1', '\n    !context.global(), oq3_v1@.len() + oq3_it1.rest().len() <= block.sp_statements().len(),')},
+        spec=NONGLOBAL + 'ensures grows(*old(context), *final(context)), r@.len() <= block.sp_statements().len(),')
+    zov['block_expr_to_asg_type'].update(spec=NONGLOBAL + 'ensures grows(*old(context), *final(context)),')
+    zov['block_or_stmt_to_asg_type'].update(spec=NONGLOBAL + 'ensures grows(*old(context), *final(context)),')
+    zov['bind_parameter_list'].update(ret='r', props=['C09', 'C07', 'C03'], loops={1: ITER('oq3_it1', '\n    oq3_v1@.len() + oq3_it1.rest().len() == param_list.sp_params().len(),')},
+        spec='ensures grows(*old(context), *final(context)), (r is Some) == (inparam_list is Some), r is Some ==> r->Some_0@.len() == inparam_list->Some_0.sp_params().len(),     //@C09:one-symbol-per-parameter')
+    zov['bind_typed_parameter_list'].update(ret='r', props=['C09', 'C07', 'C03'], loops={1: ITER('oq3_it1', '\n    oq3_v1@.len() + oq3_it1.rest().len() == param_list.sp_typed_params().len(),')},
+        spec='ensures grows(*old(context), *final(context)), (r is Some) == (inparam_list is Some), r is Some ==> r->Some_0@.len() == inparam_list->Some_0.sp_typed_params().len(),     //@C09:one-symbol-per-parameter')
+    zov['stmt_to_asg_stmt'].update(ret='r', props=P, loops={1: ITER('oq3_it1')},
+        spec='requires stmt is Include ==> !old(context).global(),      // the `unreachable!` of the Include arm\nensures grows(*old(context), *final(context)),')
+    zov['expr_stmt_to_asg_stmt'].update(ret='r', props=P, loops={1: ITER('oq3_it1')})
     D3_OLD = """
         .arg_list()
         .map(|ex| expression_list_to_asg_texpr(ex.expression_list().unwrap(), context));"""
-    zov['gate_call_expr_to_asg_stmt'] = dict(rewrites=[
-        ('D3', 'let param_list = gate_call_expr' + D3_OLD,
-         'let param_list = match gate_call_expr\n        .arg_list() { Some(ex) => Some(expression_list_to_asg_texpr(ex.expression_list().unwrap(), context)), None => None };')])
-    zov['call_expr_to_asg_texpr'] = dict(rewrites=[
-        ('D3', 'let param_list = call_expr' + D3_OLD,
-         'let param_list = match call_expr\n        .arg_list() { Some(ex) => Some(expression_list_to_asg_texpr(ex.expression_list().unwrap(), context)), None => None };')])
+    zov['gate_call_expr_to_asg_stmt'] = dict(closures=True)
+    zov['call_expr_to_asg_texpr'] = dict(closures=True)
     import os
     from vlib.rustsrc import RustFile
     from vlib.unit import REPO
@@ -396,7 +463,7 @@ ensures
                 + cond1(!is_quantum_operand_type(t), SemanticErrorKind::IncompatibleTypesError)
     }),                                                                                                              //@C13:operand-must-be-quantum
 '''))
-    zov.setdefault('get_ast_designator_expression', {}).update(dict(ret='r', props=['C09'], rewrites=[('D3', 'arg.and_then(|desg| desg.expr())', 'match arg { Some(desg) => desg.expr(), None => None }')],
+    zov.setdefault('get_ast_designator_expression', {}).update(dict(ret='r', props=['C09'], closures=True,
         spec='ensures r == des_expr(arg),'))
     zov.setdefault('designator_to_asg', {}).update(dict(ret='r', props=['C09', 'C03'], spec='''
 ensures
@@ -512,17 +579,40 @@ ensures
     expr_maybe is Some ==> res is Some,                                                     //@C03,C06:expr-translated
     grows(*old(context), *final(context)),
 '''))
-    SEED = 'broadcast use sema_lemmas; proof { assert(ext(context.errs(), context.errs())); assert(ext_tr(context.trace(), context.trace())); }'
+    SEED = 'broadcast use sema_lemmas; proof { assert(ext(context.errs(), context.errs())); assert(ext_tr(context.trace(), context.trace())); assert(scoped(*context, *context)); }'
+    HAS_CTX = re.compile(r'\bcontext\s*:\s*&mut\s+Context')
+    SCOPED = '\n    scoped(*old(context), *final(context)),     //@C03,C07:scopes-balanced\n    '
+
+    def ctx_frame(spec):
+        # every analyser function: the symbol table is well formed on entry, and on exit the same scopes
+        # are open, outer scopes untouched, the current one only extended
+        spec = (spec or '').strip('\n')
+        if 'grows(*old(context), *final(context)),' in spec:
+            spec = spec.replace('grows(*old(context), *final(context)),', SCOPED, 1)
+        elif re.search(r'(^|\n)\s*ensures\b', spec):
+            spec = re.sub(r'((?:^|\n)\s*ensures\b)', lambda m_: m_.group(1) + SCOPED, spec, count=1)
+        else:
+            spec = spec + ('\n' if spec else '') + 'ensures' + SCOPED
+        if re.match(r'\s*requires\b', spec):
+            spec = re.sub(r'^(\s*requires\b)', r'\1 old(context).wf(),', spec, count=1)
+        else:
+            spec = 'requires old(context).wf(),\n' + spec
+        return spec
 
     def dflt(q, sig):
-        head = SEED if re.search(r'\bcontext\s*:\s*&mut\s+Context', sig) else 'broadcast use sema_lemmas;'
-        return dict(props=P, nodecreases=True, ghost=[('{', 'after', head)])
+        if HAS_CTX.search(sig):
+            return dict(props=P, nodecreases=True, ghost=[('{', 'after', SEED)], spec=ctx_frame(''))
+        return dict(props=P, nodecreases=True, ghost=[('{', 'after', 'broadcast use sema_lemmas;')])
     rfz2 = RustFile(os.path.join(REPO, S2S))
     for fn_, kw_ in zov.items():
         if not kw_.get('trusted'):
             it_ = rfz2.find_fn(fn_, None, 0)
-            head = dflt(fn_, rfz2.src[it_['header_start']:it_['sig_end']])['ghost'][0]
+            sig_ = rfz2.src[it_['header_start']:it_['sig_end']]
+            head = dflt(fn_, sig_)['ghost'][0]
             kw_['ghost'] = [head] + list(kw_.get('ghost', []))
+            kw_.setdefault('nodecreases', True)
+            if HAS_CTX.search(sig_):
+                kw_['spec'] = ctx_frame(kw_.get('spec'))
     z.ingest(overrides=zov, skip=S2S_SKIP, only_kinds=('fn',), default=dflt)
     U.assumed_parser = (['%s::%s() returns Some — %s' % (k[0], k[1], v[1]) for k, v in sorted(ACC_SOME.items()) if v[0] == AP]
                         + ['%s::%s(): %s — %s' % (k[0], k[1], v[1], v[2]) for k, v in sorted(ACC_CUSTOM.items())]
